@@ -550,7 +550,13 @@ def write_evidence(prop, tier, seed, allh, results, violations, inconclusive, kn
         "wall_s": round(wall, 1),
         "violations": len(violations),
     }
-    dest = (WORK / f"evidence-partial-{prop}.json") if (partial or ALT) else (EVID / f"{prop}.json")
+    # VERIF_EVIDENCE_TO=<dir>: development aid (validation runs that must not overwrite the committed evidence)
+    alt_dir = os.environ.get("VERIF_EVIDENCE_TO")
+    if alt_dir:
+        Path(alt_dir).mkdir(parents=True, exist_ok=True)
+        dest = Path(alt_dir) / f"{prop}.{tier}.json"
+    else:
+        dest = (WORK / f"evidence-partial-{prop}.json") if (partial or ALT) else (EVID / f"{prop}.json")
     dest.write_text(json.dumps(ev, indent=1))
 
 
